@@ -779,6 +779,8 @@ impl<RequireLeftInput, RequireRightInput> JoinBuilder<RequireLeftInput, RequireR
             Some(JoinOperator::LeftOuter(x)) => Some(JoinOperator::LeftOuter(Expr::and(expr, x))),
             Some(JoinOperator::RightOuter(x)) => Some(JoinOperator::RightOuter(Expr::and(expr, x))),
             Some(JoinOperator::FullOuter(x)) => Some(JoinOperator::FullOuter(Expr::and(expr, x))),
+            // A cross join restricted by a condition is the inner join on that condition
+            Some(JoinOperator::Cross) => Some(JoinOperator::Inner(expr)),
             op => op,
         };
         self
